@@ -6,9 +6,10 @@
 (*           exact (rational factor lists), for one parameter vector.      *)
 (*  "judge": observations returned by the real code (DecFloat) against the *)
 (*           expected outputs; answers ok / the set of failing outputs.    *)
-(*           obs = << <<name, value, abs_scale>>, ... >>: an output passes  *)
-(*           when |value - expected| <= 10^-tolk * (max(|value|,|expected|)*)
-(*           + abs_scale)  (abs_scale > 0 only where the expectation is 0).*)
+(*           obs = << <<name, value, abs_scale, k>>, ... >>: an output       *)
+(*           passes when |value - expected| <= 10^-k * (max(|value|,       *)
+(*           |expected|) + abs_scale)  (abs_scale > 0 only where the       *)
+(*           expectation is 0; k = 5, or 3 for a searched DA exponent).    *)
 (***************************************************************************)
 EXTENDS Linearised, Json, IOUtils
 
@@ -35,7 +36,7 @@ ExpectDec(q, name) ==
   LET e == Expect(q)
   IN IF name = "area" /\ q.m \in {"bet", "lang", "self", "asiso"} THEN DMul(DOfFactors(e["area_over_NA18"]), NA18)
      ELSE DOfFactors(e[name])
-ObsOk(q, o) == LET x == ExpectDec(q, o[1]) IN DCloseAbs(o[2], x, DTol(q.tolk), DMul(DTol(q.tolk), o[3]))
+ObsOk(q, o) == LET x == ExpectDec(q, o[1]) IN DCloseAbs(o[2], x, DTol(o[4]), DMul(DTol(o[4]), o[3]))
 
 \* ---- the enumerated scenario space of the quantifier
 NMs == {R(1, 10000), R(1, 1000), R(3, 250), R(1, 10)}               \* 1e-4 .. 1e-1 mol/g
